@@ -404,7 +404,7 @@ func checkC01(c *mc.Ctx) {
 	}
 	// (ii) shape sweep of a single WriteData followed by one small unit on the same PID
 	sweepC01(c)
-	c.Ev.Require("history-with-2-or-more-pes", "payload-over-65535", "exact-fit", "one-byte-stuffing", "af-room-exactly-header", "start-code-lookalike-payload", "every-stream-type", "every-stream-id")
+	c.Ev.Require("history-with-2-or-more-pes", "payload-over-65535", "exact-fit", "one-byte-stuffing", "af-room-exactly-header", "start-code-lookalike-payload", "every-stream-type", "every-stream-id", "pid-silent-for-thousands-of-packets")
 }
 
 type shape struct {
@@ -543,6 +543,26 @@ func sweepC01(c *mc.Ctx) {
 	c.Ev.Class("every-stream-id", dones)
 	c.Ev.AddScenario(mc.Scenario{Name: "stream-ids", SpaceSize: ns, Executed: dones, Exhaustive: dones == ns,
 		Bound: "every explicit stream_id 0xbc..0xff: two streams, five units (1..300 bytes, with and without adaptation field), tables in between"})
+	// long silences: a unit on one PID, then hundreds to thousands of packets of another PID before the first PID is
+	// heard of again (or the stream ends) - a PID that is quiet is not a PID that is gone
+	gaps := []int{1, 2, 3, 6, 7, 12, 13, 24, 45}
+	doneg := mc.ParFor(int64(len(gaps)*2), c.OverBudget, func(i int64) {
+		k, tail := gaps[i/2], i%2 == 1
+		ops := []MOp{opAddA, opAddB, opPcrB, {K: "data", PID: 0x100, Len: 500}}
+		for j := 0; j < k; j++ {
+			ops = append(ops, MOp{K: "data", PID: 0x101, Len: 70000 - 1000*(j%3)})
+		}
+		if tail {
+			ops = append(ops, MOp{K: "data", PID: 0x100, Len: 300}, MOp{K: "data", PID: 0x101, Len: 10})
+		}
+		for _, v := range roundTrip(40, ops, c.Seed) {
+			c.Rep.Report(v.Sig, map[string]any{"kind": "mux-roundtrip", "scenario": "long-silence", "period": 40, "ops": ops, "message": v.Msg})
+		}
+		c.Ev.Distinct(fmt.Sprintf("long-silence|%d|%v", k, tail))
+	})
+	c.Ev.Class("pid-silent-for-thousands-of-packets", doneg)
+	c.Ev.AddScenario(mc.Scenario{Name: "long-silence", SpaceSize: int64(len(gaps) * 2), Executed: doneg, Exhaustive: doneg == int64(len(gaps)*2),
+		Bound: "a 500-byte unit on PID A, then 1..45 units of ~70000 bytes on PID B (380 to 17000 packets), then A again or the end of the stream"})
 	c.Ev.Class("every-stream-type", donet)
 	c.Ev.AddScenario(mc.Scenario{Name: "stream-types", SpaceSize: nt, Executed: donet, Exhaustive: donet == nt,
 		Bound: "every stream_type value 0..255 on one stream (and its complement on a second one): two streams, five units, tables in between"})
